@@ -108,4 +108,248 @@ theorem mapE_error_of_mem {α β} {f : α → Except Err β} {l : List α} {e : 
         · exact ⟨x, hx, hfx⟩
       rw [ih (fun a ha b _ => trivial) hex' (fun a ha => hothers a (by simp [ha]))]
 
+/-! ### weights, fields, the cell loop -/
+
+
+theorem weightList_length {w : Weights} {n : Nat} {wl} (h : weightList w n = .ok wl) : wl.length = n := by
+  unfold weightList at h
+  split at h
+  · cases h; simp
+  · cases h; simp
+  · cases h
+  · dsimp only at h
+    split at h
+    · cases h
+    · split at h
+      · split at h
+        · cases h
+        · split at h
+          · cases h; simp
+          · rename_i h1 h2
+            cases h
+            simp only [List.length_map, List.length_range]
+            simp only [bne_iff_ne, ne_eq, Bool.and_eq_true, not_and, beq_iff_eq] at h1 h2
+            by_contra hne
+            exact h1 h2 hne
+      · cases h
+
+theorem blendFields_keys {cells w m idx fs vs} (h : blendFields cells w m idx fs = .ok vs) :
+    vs.map (·.1) = fs := by
+  induction fs generalizing vs with
+  | nil => simp [blendFields] at h; subst h; rfl
+  | cons f fs ih =>
+    simp only [blendFields] at h
+    split at h
+    · cases h
+    · split at h
+      · cases h
+      · rename_i rest hrest
+        cases h
+        simp [ih hrest]
+
+theorem blendCells_ok {cs w m idx c} (h : blendCells cs w m idx = .ok c) :
+    ∃ c0 rest, cs = c0 :: rest ∧ c.coord = c0.coord ∧ c.kind = c0.kind ∧ c.values.keys = c0.values.keys := by
+  unfold blendCells at h
+  split at h
+  · cases h
+  · rename_i c0 rest
+    split at h
+    · split at h
+      · cases h
+      · rename_i vs hvs
+        cases h
+        exact ⟨c0, rest, rfl, rfl, rfl, blendFields_keys hvs⟩
+    · cases h
+
+theorem gatherCells_head {d ds k cs} (h : gatherCells (d :: ds) k = .ok cs) :
+    ∃ c rest, cs = c :: rest ∧ lookup d k = some c := by
+  simp only [gatherCells] at h
+  split at h
+  · cases h
+  · rename_i c hc
+    split at h
+    · cases h
+    · rename_i cs' _
+      cases h
+      exact ⟨c, cs', rfl, hc⟩
+
+theorem blendLoop_structure {d0 ds m idx} :
+    ∀ {i ks wl out}, blendLoop (d0 :: ds) m idx i ks wl = .ok out → ks.length ≤ wl.length →
+    (∀ p ∈ ks, lookup d0 p.1 = some p.2) →
+    List.Forall₂ (fun (p : Coord × Cell) o => o.coord = p.2.coord ∧ o.kind = p.2.kind ∧
+      o.values.keys = p.2.values.keys) ks out := by
+  intro i ks
+  induction ks generalizing i with
+  | nil => intro wl out h _ _; simp [blendLoop] at h; subst h; exact .nil
+  | cons p ks ih =>
+    intro wl out h hlen hlook
+    cases wl with
+    | nil => simp at hlen
+    | cons w ws =>
+      obtain ⟨k, pc⟩ := p
+      simp only [blendLoop] at h
+      split at h
+      · cases h
+      · rename_i cs hcs
+        split at h
+        · cases h
+        · rename_i c hc
+          split at h
+          · cases h
+          · rename_i r hr
+            cases h
+            obtain ⟨c1, rest1, hcs1, hl1⟩ := gatherCells_head hcs
+            obtain ⟨c0, rest0, hcs0, h1, h2, h3⟩ := blendCells_ok hc
+            have : c0 = pc := by
+              have := hlook (k, pc) (by simp)
+              simp only at this
+              rw [this] at hl1
+              cases hl1
+              rw [hcs1] at hcs0
+              cases hcs0; rfl
+            subst this
+            exact .cons ⟨h1, h2, h3⟩ (ih hr (by simpa using hlen) (fun p hp => hlook p (by simp [hp])))
+
+/-! ### the coordinate index -/
+
+
+def pairOf (c : Cell) : Coord × Cell := (c.coord, c)
+
+theorem indexSet_fresh (d : List (Coord × Cell)) (c : Cell) (h : ∀ p ∈ d, p.1 ≠ c.coord) :
+    indexSet d c = d ++ [pairOf c] := by
+  unfold indexSet
+  have : d.any (·.1 == c.coord) = false := by
+    rw [List.any_eq_false]; intro p hp; simpa using h p hp
+  simp [this, pairOf]
+
+theorem foldl_indexSet (t : List Cell) : ∀ (acc : List (Coord × Cell)),
+    (t.map Cell.coord).Nodup → (∀ p ∈ acc, ∀ c ∈ t, p.1 ≠ c.coord) →
+    t.foldl indexSet acc = acc ++ t.map pairOf := by
+  induction t with
+  | nil => intro acc _ _; simp
+  | cons c t ih =>
+    intro acc hnd hdis
+    rw [List.map_cons, List.nodup_cons] at hnd
+    rw [List.foldl_cons, indexSet_fresh acc c (fun p hp => hdis p hp c (by simp))]
+    rw [ih _ hnd.2]
+    · simp
+    · intro p hp c' hc'
+      rcases List.mem_append.mp hp with hp | hp
+      · exact hdis p hp c' (by simp [hc'])
+      · simp only [List.mem_singleton] at hp
+        subst hp
+        intro heq
+        exact hnd.1 (by rw [show (pairOf c).1 = c.coord from rfl] at heq; rw [heq]; exact List.mem_map_of_mem hc')
+
+theorem indexTriangle_nodup {t : List Cell} (h : (t.map Cell.coord).Nodup) :
+    indexTriangle t = t.map pairOf := by
+  unfold indexTriangle
+  rw [foldl_indexSet t [] h (by simp)]; simp
+
+theorem lookup_pairs {t : List Cell} (h : (t.map Cell.coord).Nodup) {c : Cell} (hc : c ∈ t) :
+    lookup (t.map pairOf) c.coord = some c := by
+  induction t with
+  | nil => simp at hc
+  | cons a t ih =>
+    rw [List.map_cons, List.nodup_cons] at h
+    unfold lookup
+    rw [List.map_cons, List.find?_cons]
+    by_cases hac : a.coord = c.coord
+    · have : a = c := by
+        rcases List.mem_cons.mp hc with rfl | hc
+        · rfl
+        · exact absurd (hac ▸ List.mem_map_of_mem hc) h.1
+      subst this
+      simp [pairOf]
+    · have hc' : c ∈ t := by
+        rcases List.mem_cons.mp hc with rfl | hc
+        · exact absurd rfl hac
+        · exact hc
+      have := ih h.2 hc'
+      unfold lookup at this
+      have hb : ((pairOf a).1 == c.coord) = false := by simpa [pairOf] using hac
+      rw [hb]
+      exact this
+
+theorem cmp_of_coord {a b a' b' : Cell} (ha : a'.coord = a.coord) (hb : b'.coord = b.coord) :
+    Cell.cmp a' b' = Cell.cmp a b := by
+  simp only [Cell.coord, Coord.mk.injEq] at ha hb
+  obtain ⟨h1, h2, h3, h4, h5⟩ := ha
+  obtain ⟨g1, g2, g3, g4, g5⟩ := hb
+  simp only [Cell.cmp, compareLex, cmpOn, h1, h2, h3, h4, h5, g1, g2, g3, g4, g5]
+
+theorem pairwise_le_of_coords {t out : List Cell}
+    (h : List.Forall₂ (fun c o => o.coord = c.coord) t out)
+    (hs : t.Pairwise (fun a b => Cell.le a b)) : out.Pairwise (fun a b => Cell.le a b) := by
+  induction h with
+  | nil => exact .nil
+  | cons hco _ ih =>
+    rename_i c o t' out' hrest
+    rw [List.pairwise_cons] at hs ⊢
+    refine ⟨?_, ih hs.2⟩
+    intro o' ho'
+    obtain ⟨c', hc', hcc⟩ : ∃ c' ∈ t', o'.coord = c'.coord := by
+      clear ih hs
+      induction hrest with
+      | nil => simp at ho'
+      | cons hh _ ih2 =>
+        rcases List.mem_cons.mp ho' with rfl | ho'
+        · exact ⟨_, by simp, hh⟩
+        · obtain ⟨c', hc', hcc⟩ := ih2 ho'
+          exact ⟨c', by simp [hc'], hcc⟩
+    have := hs.1 c' hc'
+    unfold Cell.le at this ⊢
+    rw [cmp_of_coord hco hcc]; exact this
+
+
+/-! ### `blendPrep` -/
+
+theorem forall₂_of_map_left {α β γ} {R : β → γ → Prop} {f : α → β} :
+    ∀ {l : List α} {l' : List γ}, List.Forall₂ R (l.map f) l' → List.Forall₂ (fun a b => R (f a) b) l l'
+  | [], _, h => by cases h; exact .nil
+  | a :: l, _, h => by
+    cases h with
+    | cons h1 h2 => exact .cons h1 (forall₂_of_map_left h2)
+
+theorem forall₂_imp' {α β} {R S : α → β → Prop} (hRS : ∀ a b, R a b → S a b) :
+    ∀ {l : List α} {l' : List β}, List.Forall₂ R l l' → List.Forall₂ S l l'
+  | _, _, .nil => .nil
+  | _, _, .cons h1 h2 => .cons (hRS _ _ h1) (forall₂_imp' hRS h2)
+
+theorem blendPrep_ok {t0 : List Cell} {rest w method m t wl}
+    (h : blendPrep (t0 :: rest) w method = .ok (m, t, wl)) : t = t0 ∧ wl.length = t0.length := by
+  unfold blendPrep at h
+  split at h
+  · cases h
+  · split at h
+    · cases h
+    · simp only at h
+      split at h
+      · cases h
+      · split at h
+        · cases h
+        · split at h
+          · cases h
+          · split at h
+            · cases h
+            · rename_i wl' hwl
+              cases h
+              exact ⟨rfl, weightList_length hwl⟩
+
+theorem gatherCells_missing {idxs : List (List (Coord × Cell))} {k : Coord}
+    (h : ∃ d ∈ idxs, lookup d k = none) : gatherCells idxs k = .error .valueError := by
+  induction idxs with
+  | nil => simp at h
+  | cons d ds ih =>
+    simp only [gatherCells]
+    split
+    · rfl
+    · rename_i c hc
+      have : ∃ d ∈ ds, lookup d k = none := by
+        obtain ⟨d', hd', hl⟩ := h
+        rcases List.mem_cons.mp hd' with rfl | hd'
+        · rw [hc] at hl; cases hl
+        · exact ⟨d', hd', hl⟩
+      rw [ih this]
+
 end Bermuda.Blend
